@@ -1154,7 +1154,13 @@ impl OpLogRecord {
     }
 
     pub fn to_key(&self) -> String {
-        format!("{}_{}", self.db, self.key)
+        // create-db and snapshot records are written with the fixed key ids 1 and 2, keep them
+        // apart from the records of the real keys that own those ids
+        match self.opp {
+            ReplicateOpp::CreateDb => format!("{}_create-db", self.db),
+            ReplicateOpp::Snapshot => format!("{}_snapshot", self.db),
+            _ => format!("{}_{}", self.db, self.key),
+        }
     }
 
     pub fn to_string(&self) -> String {
